@@ -133,7 +133,7 @@ func tagSchemas() []string {
 		"{% if {E} %}a{% elif {E} %}b{% else %}c{% endif %}", "{% if {E} == {E} %}a{% endif %}", "{% if {E} in {E} %}a{% endif %}", "{% if not {E} and {E} or {E} %}a{% endif %}", "{% if {E} < {E} %}a{% endif %}", "{% if {E} >= {E} %}a{% endif %}",
 		"{% for x in {E} %}{{ x }}{{ forloop.Counter }}{% empty %}e{% endfor %}", "{% for k, v in {E} reversed sorted %}{{ k }}{{ v }}{% endfor %}", "{% for x in {E} sorted %}{{ x }}{% endfor %}", "{% for x in {E} reversed %}{{ x }}{% endfor %}",
 		"{% ifequal {E} {E} %}a{% else %}b{% endifequal %}", "{% ifnotequal {E} {E} %}a{% endifnotequal %}",
-		"{% firstof {E} {E} {E} %}", "{% firstof %}", "{% cycle {E} {E} %}", "{% cycle %}", "{% cycle {E} as c silent %}{{ c }}{% cycle c %}", "{% cycle as c %}", "{% for i in slI %}{% cycle {E} {E} as c %}{% cycle c %}{% endfor %}",
+		"{% firstof {E} {E} {E} %}", "{% firstof %}", "{% cycle {E} {E} %}", "{% cycle %}", "{% cycle {E} as c silent %}{{ c }}{% cycle c %}", "{% cycle as c %}", "{% for i in slI %}{% cycle {E} {E} as c %}{% cycle c %}{% endfor %}", "{% for i in sAbc|add:sNum %}{% cycle {E} {E} as c %}{% cycle c {E} {E} %}{% cycle c %}{% endfor %}", "{% for i in sAbc|add:sNum %}{% cycle {E} as c silent %}{% cycle {E} c {E} c %}{% endfor %}",
 		"{% ifchanged {E} {E} %}a{% else %}b{% endifchanged %}", "{% for i in slI %}{% ifchanged {E} %}a{% endifchanged %}{% ifchanged %}{{ {E} }}{% endifchanged %}{% endfor %}",
 		"{% with a={E} b={E} %}{{ a }}{{ b }}{% endwith %}", "{% with {E} as a %}{{ a }}{% endwith %}", "{% set a = {E} %}{{ a }}",
 		"{% widthratio {E} {E} {E} %}", "{% widthratio {E} {E} {E} as w %}{{ w }}",
@@ -312,7 +312,7 @@ func run(r *eng.Runner) {
 
 	// ---- layer 5/6: tags and operators ----
 	atoms := append([]string{}, names...)
-	atoms = append(atoms, "1", "0", `"lit"`, `""`, "true", "9999999999", "1.5", "missing", "st.In.Name", "slI.0", "fn1(1)", "st.F(2)", "(1)", "[1, 2]")
+	atoms = append(atoms, "1", "0", `"lit"`, `""`, "true", "9999999999", "1.5", "0.5", "0.0", "missing", "st.In.Name", "slI.0", "fn1(1)", "st.F(2)", "(1)", "[1, 2]")
 	r.Group("tags-operators", "c01.case", fmt.Sprintf("%d tag/operator schemas whose expression slots are filled from %d atoms (every universe value, literals, paths, calls): one- and two-slot schemas exhaustively, larger ones with every atom in every slot", len(tagSchemas()), len(atoms)))
 	files := map[string]string{"/inc": "I{{ a }}", "/main": ""}
 	_ = files
